@@ -490,7 +490,7 @@ def explain(c, impl, verd):
             "copy-assign, M h s move-construct (s destroyed), V h s move-assign (s destroyed), D h destroy, tR h sym par k c.. AddTransition, wR h src sym dst, "
             "F h q SetStateFinal, wS h q sym SetStateStart, tE EraseFinalStates, tX Clear, tQ AreTransitionsEmpty, U/L h s RemoveUnreachable/UselessStates, "
             "Y h a b Union (maps reported), J h a b UnionDisjointStates, I h s M.. ReindexStates, P k replay of the k-th library operation on fresh operands. "
-            "impl = per step: S [maps, X re-run on fresh operands] L <live objects with their values>. Gates: isolation = an object the step does not "
+            "impl = per step: S [maps, X re-run on fresh operands, Z run in a pristine process] L <live objects with their values>. Gates: isolation = an object the step does not "
             "name changed; step_value = the named object does not show the value the step must produce; liveness; result_not_function_of_operands = "
             "the re-run on fresh copies of the operands' values (or an earlier call on equal values) gives another result; replay_differs; "
             "union_value / reindex_value / union_disjoint_value = result is not the image/union of the operands' values at call time under the reported maps.")
@@ -502,11 +502,11 @@ LEVEL_TEXT = ("Coq theorems: (1) value model — a pool handle -> value where ev
               "written as the code writes it (uniqueClusterMap, uniqueCluster, uniqueTuplePtrSet, insert; Clear replaces or clears depending on unique(); "
               "trimming results share the map or single clusters) is proved to refine the value model for ALL histories (cow_refines_value). Tie to the C++: "
               "libvata rebuilt from /repo's working tree is driven through random and targeted histories; after every step every live object is read and "
-              "compared with the extracted value model; library operations are re-run on fresh operands and replayed after unrelated activity.")
+              "compared with the extracted value model; library operations are re-run on fresh operands, in a pristine process, and replayed after unrelated activity.")
 LEVEL_NOTE = ("Trusted: Coq kernel, ExtrOcamlBasic extraction, OCaml/C++ glue, history generator. The C++ is modelled, not verified: the copy-on-write model "
               "is hand-written from the code and tied to it only through the values read after every step (use counts are not compared). The alphabet "
               "object and the tuple cache are process-wide by design and treated as part of the environment. No axioms.")
 TECHNIQUE = "Coq proof of a value model and of a copy-on-write heap model refining it; extracted value model compared with every live object after every step"
 DESIGN_REF = "DESIGN.md 5/C11"
 EXPLANATION = explain("", "", "")
-READY = False
+READY = True
